@@ -18,7 +18,7 @@ package msqrtInv
 
 /* -------------------------------------------------------------------------- */
 
-//import   "fmt"
+import   "fmt"
 import   "errors"
 
 import . "github.com/pbenner/autodiff"
@@ -29,6 +29,8 @@ import   "github.com/pbenner/autodiff/algorithm/matrixInverse"
 
 // Sherif, Nagwa. "On the computation of a matrix inverse square root."
 // Computing 46.4 (1991): 295-305.
+
+const maxIterations = 1000
 
 func mSqrtInv(matrix Matrix) (Matrix, error) {
   n, _ := matrix.Dims()
@@ -48,8 +50,13 @@ func mSqrtInv(matrix Matrix) (Matrix, error) {
   X1 := NullDenseMatrix(matrix.ElementType(), n, n)
   X1.MmulS(S1.MdotM(X0, t), c)
   // Mnorm returns the squared Frobenius norm: stop when ||X0 - X1||_F <= 1e-8
-  for t1.Mnorm(S1.MsubM(X0, X1)).GetFloat64() > 1e-8*1e-8 {
+  for iter := 0; t1.Mnorm(S1.MsubM(X0, X1)).GetFloat64() > 1e-8*1e-8; iter++ {
     verifhook.Tick("msqrtInv.iter")
+    // the iteration converges quadratically if it converges at all (it
+    // does not e.g. for matrices with negative real eigenvalues)
+    if iter >= maxIterations {
+      return nil, fmt.Errorf("MSqrtInv(): no convergence within %d iterations", maxIterations)
+    }
     X0, X1 = X1, X0
     t, err := matrixInverse.Run(S1.MaddM(I, S2.MdotM(A, S1.MdotM(X0, X0))))
     if err != nil {
